@@ -34,6 +34,7 @@ ASSUMPTIONS = [
 DECIDING = ['read(write(L)) == sysex(L) [binary]', 'read(write(L)) == sysex(L) [text]',
             'no sysex => []', 'whitespace layouts', 'invalid hex text => ValueError']
 TIMEOUT = {'quick': 300, 'thorough': 1800}
+ENV_FULL = True        # cheap enough: every shard runs once in each interpreter environment (core.ENV_MODES)
 LENS = [0, 1, 2, 3, 127, 128, 1000, 1365, 1366, 5000]
 
 
